@@ -48,6 +48,16 @@ func (p *Program) chanID(v ssa.Value, depth int) string {
 	v = Unwrap(v)
 	switch x := v.(type) {
 	case *ssa.MakeChan:
+		// a channel made for a struct field (a completion signal sent along inside a message) is that field
+		if refs := x.Referrers(); refs != nil {
+			for _, r := range *refs {
+				if st, ok := r.(*ssa.Store); ok && st.Val == x {
+					if fa, ok := st.Addr.(*ssa.FieldAddr); ok {
+						return "field:" + fieldOwner(fa) + "." + FieldOfAddr(fa).Name()
+					}
+				}
+			}
+		}
 		return "make:" + p.Pos(x.Pos())
 	case *ssa.UnOp:
 		if x.Op == token.MUL {
@@ -60,7 +70,7 @@ func (p *Program) chanID(v ssa.Value, depth int) string {
 			}
 		}
 	case *ssa.Field:
-		return "field:" + x.X.Type().String() + "." + FieldOfField(x).Name()
+		return "field:" + strings.TrimPrefix(x.X.Type().String(), ModPath+"/") + "." + FieldOfField(x).Name()
 	case *ssa.FreeVar:
 		return p.freeVarChan(x, depth+1)
 	case *ssa.Parameter:
